@@ -787,6 +787,58 @@ def gen_long(chk, n_ref, n_hyp, big=()):
     return cases
 
 
+def gen_block(chk, n):
+    """size-dependent code paths at block boundaries: a reduction or sweep done in column blocks (16/32/64/128 wide) goes
+    wrong exactly when a dimension is a multiple of the block - and only for a pair that fills the whole dimension and
+    whose best alignment runs down the diagonal to the last cell.  Reference (or hypothesis) widths at and next to powers
+    of two, the first pair's reference filling the padded width, its hypothesis an edited copy of about the same length
+    (so the optimal alignment ends in a match / substitution, not a deletion); judged pair by pair by the model."""
+    rng = chk.rng
+    cases = []
+    sizes = [64, 128, 32, 16, 63, 65, 127, 129, 31, 33, 64, 128]
+    for i in range(n):
+        R = sizes[i % len(sizes)]
+        alphabet = [0, 1, 2, 3]
+        eos = rng.choice([None, None, 9, -1])
+        incl = rng.random() < 0.5
+        N = rng.randint(1, 2)
+        ref, hyp = [], []
+        for nn in range(N):
+            if nn == 0:
+                # with an eos: the eos in the very last slot (counts only with include_eos) or none at all
+                L = R if eos is None or rng.random() < 0.5 else R - 1
+                r = [rng.choice(alphabet) for _ in range(L)] + [eos] * (R - L)
+            else:
+                L = rng.randint(0, R - 1) if eos is not None else R
+                r = [rng.choice(alphabet) for _ in range(L)] + ([eos] + [rng.choice(alphabet) for _ in range(R - L - 1)] if L < R else [])
+            ref.append(r)
+        # hypothesis of the first pair: its reference's tokens with a few edits, the last tokens kept
+        base = [x for x in ref[0] if x != eos or eos is None]
+        h = list(base)
+        for _ in range(rng.randint(0, 4)):
+            if len(h) > 4:
+                j = rng.randint(0, len(h) - 3)
+                op = rng.choice(["sub", "del", "ins"])
+                if op == "sub":
+                    h[j] = rng.choice(alphabet)
+                elif op == "del":
+                    del h[j]
+                else:
+                    h.insert(j, rng.choice(alphabet))
+        H = max(len(h) + (1 if eos is not None else 0), 1)
+        hyp.append(h + ([eos] * (H - len(h)) if eos is not None else []))
+        for nn in range(1, N):
+            hyp.append(_rand_seq(rng, H, alphabet, eos, 0.3) if eos is not None else [rng.choice(alphabet) for _ in range(H)])
+        if rng.random() < 0.3:   # the same on the hypothesis side: swap the roles
+            ref, hyp = hyp, ref
+        api = rng.choice(["ed", "ed", "prefix"])
+        cases.append(dict(api=api, module=rng.random() < 0.3, kw=rng.random() < 0.5, ref=ref, hyp=hyp, eos=eos,
+                          include_eos=incl, norm=rng.random() < 0.3, batch_first=rng.random() < 0.5,
+                          exclude_last=(api == "prefix" and rng.random() < 0.5), costs=_rand_costs(rng, 0.3),
+                          padding=rng.choice(PADS), warn=False, long=True, stream="block-boundary"))
+    return cases
+
+
 def gen_cases(chk):
     cases = gen_exhaustive(chk)
     for c in load_corpus("C01"):
@@ -802,6 +854,7 @@ def gen_cases(chk):
     cases += gen_entry_layout(chk, 3000 if thorough else 260)
     cases += gen_numeric(chk, 1200 if thorough else 120)
     cases += gen_long(chk, 28 if thorough else 5, 21 if thorough else 3, big=(513, 1025) if thorough else (513,))
+    cases += gen_block(chk, 48 if thorough else 12)
     return [c for c in cases if in_space(c)]
 
 
@@ -978,7 +1031,7 @@ def run(chk, cases=None):
     meta_n = 0
     meta_fail = []
     OLD = ("random", "corpus")
-    NEW = ("eos-mix", "sparse-defaults", "entry-layout", "numeric", "long-ref", "long-hyp")
+    NEW = ("eos-mix", "sparse-defaults", "entry-layout", "numeric", "long-ref", "long-hyp", "block-boundary")
     for i, c in enumerate(cases):
         if c.get("long") or c.get("slow") or not _exact_scale(c) or (c.get("entry") in JIT and not replaying):
             continue
@@ -1047,24 +1100,28 @@ def run(chk, cases=None):
 # ------------------------------------------------------------------------------------------
 # source tie: the translated Python text of _string_matching, interpreted inside Coq, on the run's cases
 # ------------------------------------------------------------------------------------------
-IMPORTS_SRC = IMPORTS + "From PV Require C01.SrcRun.\n"
-SRC_TIE_SAMPLE = 1500
+IMPORTS_SRC = IMPORTS + "From PV Require C01.SrcRun C01.SrcRunP.\n"
+SRC_TIE_SAMPLE = 1500  # per entry point (ed / prefix)
 SRC_THEOREMS = ["c01_source_loop_body_is_step_row", "c01_source_loop_is_rows", "c01_source_edit_distance_is_model",
                 "c01_source_string_matching_is_model", "c01_source_string_matching_is_lev",
                 "c01_source_edit_distance_is_lev"]
 
 
 def _src_tie_eligible(case, out):
-    """plain edit-distance calls (return_mask = return_prf_dsts = return_mistakes = False) whose costs are exact
-    rationals k/scale in float32 and whose tensors are small enough for the interpreter (its cost is cubic in R)"""
+    """edit_distance calls (return_mask = return_prf_dsts = return_mistakes = False) and prefix_edit_distances calls
+    (return_prf_dsts = True, exclude_last, padding) whose costs are exact rationals k/scale in float32 and whose tensors
+    are small enough for the interpreter (its cost is cubic in R)"""
     N, R, H = _dims(case)
-    return (case["api"] == "ed" and _usable(case, out) and _exact_scale(case) and not case.get("long")
+    return (case["api"] in ("ed", "prefix") and _usable(case, out) and _exact_scale(case) and not case.get("long")
             and not case.get("slow") and R <= 12 and H <= 12)
 
 
 def src_term(case, out):
     N, R, H = _dims(case)
     ref, hyp = _mat(case["ref"], R, case["batch_first"]), _mat(case["hyp"], H, case["batch_first"])
+    if case["api"] == "prefix":  # the table row by row as returned ((N x T) when batch_first, else (T x N))
+        obs = cl([cl([_q(x) for x in row]) for row in out["val"]])
+        return f"SrcRunP.src_prefix_check {_cfg(case)} {cz(_scale(case))} {cn(N)} {ref} {hyp} {obs}"
     obs = cl([_q(x) for x in out["val"]])
     return f"SrcRun.src_edit_distance_check {_cfg(case)} {cz(_scale(case))} {cn(N)} {ref} {hyp} {obs}"
 
@@ -1075,10 +1132,14 @@ def source_tie(chk, cases, outs):
     against CPython + torch; independent of whether the tie lemmas still compile"""
     from vlib import CoqError
     import time
-    idx = [i for i, (c, o) in enumerate(zip(cases, outs)) if _src_tie_eligible(c, o)]
-    if len(idx) > SRC_TIE_SAMPLE:  # evenly spaced over the streams
-        step = len(idx) / SRC_TIE_SAMPLE
-        idx = [idx[int(j * step)] for j in range(SRC_TIE_SAMPLE)]
+    idx = []
+    for api in ("ed", "prefix"):
+        sub = [i for i, (c, o) in enumerate(zip(cases, outs)) if c["api"] == api and _src_tie_eligible(c, o)]
+        if len(sub) > SRC_TIE_SAMPLE:  # evenly spaced over the streams
+            step = len(sub) / SRC_TIE_SAMPLE
+            sub = [sub[int(j * step)] for j in range(SRC_TIE_SAMPLE)]
+        idx += sub
+    idx.sort()
     if not idx:
         chk.extra["source_tie_run"] = {"cases": 0, "disagreements": 0}
         return
@@ -1091,6 +1152,8 @@ def source_tie(chk, cases, outs):
     bad = [idx[j] for j, ok in enumerate(res) if not ok]
     chk.extra["source_tie_run"] = {
         "cases": len(idx), "disagreements": len(bad), "wall_s": round(time.time() - t0, 1),
+        "prefix": sum(1 for i in idx if cases[i]["api"] == "prefix"),
+        "exclude_last": sum(1 for i in idx if cases[i]["api"] == "prefix" and cases[i]["exclude_last"]),
         "with_eos": sum(1 for i in idx if cases[i]["eos"] is not None),
         "include_eos": sum(1 for i in idx if cases[i]["include_eos"]), "norm": sum(1 for i in idx if cases[i]["norm"]),
         "batch_first": sum(1 for i in idx if cases[i]["batch_first"]),
@@ -1102,7 +1165,8 @@ def source_tie(chk, cases, outs):
         i = bad[0]
         chk.report({"case": cases[i], "impl": outs[i],
                     "what": "the Python source of _string_matching as translated to MiniPy and interpreted in Coq "
-                            "(PV.C01.SrcRun.src_edit_distance_check, torch calls = PV.MiniTorch.OpsC01/OpsC07) does not "
+                            "(PV.C01.SrcRun.src_edit_distance_check / SrcRunP.src_prefix_check, torch calls = "
+                            "PV.MiniTorch.OpsC01/OpsC01P/OpsC07) does not "
                             "reproduce the implementation's output: translator / interpreter / ext01 / MiniTorch no longer "
                             "describe the code",
                     "disagreeing_cases": len(bad),
